@@ -146,6 +146,13 @@ def main(argv):
     untranslated = [u for u in st.get('untranslated', []) if any(re.search(rx, u['name']) for rx in spec['roots'])
                     and u['name'] not in registry.EXPECTED_UNTRANSLATED]
     cfg_dep = sorted(n for n in foot if n in st.get('cfg_diff', []))
+    hand_changed = []
+    if spec.get('hand_sources'):
+        snap = json.load(open(os.path.join(TFV, 'model', 'hand_sources.json')))
+        for f in spec['hand_sources']:
+            cur = hashlib.sha256(open(os.path.join(pipeline.REPO, f), 'rb').read()).hexdigest()
+            if snap.get(f) != cur:
+                hand_changed.append(f)
 
     # ---- cases: corpus first, then the property's generator, then generic cases for every root entry point
     r = fp.Rng(seed * 1000003 + int(hashlib.sha256(pid.encode()).hexdigest()[:8], 16))
@@ -169,8 +176,17 @@ def main(argv):
         for _ in range(per):
             gen_lines.append(corr.gen_case(e, r, valid_only=(r.below(4) > 0)))
 
-    impl = run_cases(st, cases.lines)
+    hkey = 'harness_std'
+    if spec.get('harness') == 'serde':
+        pipeline.ensure_serde(st)
+        hkey = 'harness_serde'
+        if not st.get('harness_serde'):
+            print('serde harness failed to build: ' + str(st.get('serde_error'))[-2000:])
+    impl = run_cases(st, cases.lines, hkey)
     model = corr.run_parallel([st['driver']], cases.lines, 16)[0]
+    for i, m in enumerate(cases.meta):
+        if m.get('impl_only'):
+            model[i] = impl[i]
     impl_g = run_cases(st, gen_lines)
     model_g = corr.run_parallel([st['driver']], gen_lines, 16)[0]
     cdiff = corr.diff(cases.lines, impl, model) + corr.diff(gen_lines, impl_g, model_g)
@@ -182,7 +198,10 @@ def main(argv):
     for fu in spec.get('followups', []):
         c2 = fu[0](prev_c, prev_a)
         if c2.lines:
-            a2 = run_cases(st, c2.lines)
+            if len(fu) > 3 and fu[3] == 'model':
+                a2 = corr.run_parallel([st['driver']], c2.lines, 16)[0]
+            else:
+                a2 = run_cases(st, c2.lines, hkey)
             extra_eval += len(c2.lines)
             f2 = fu[1](c2, a2)
             for f in f2:
@@ -223,6 +242,8 @@ def main(argv):
     obligations += len(foot); discharged += len(foot) - len(broken)      # Gen ≡ Model per definition (identical or kernel-bridged)
     obligations += 1; discharged += (0 if cdiff else 1)                  # correspondence stream
     obligations += 1; discharged += (0 if untranslated else 1)
+    if spec.get('hand_sources'):
+        obligations += len(spec['hand_sources']); discharged += len(spec['hand_sources']) - len(hand_changed)
     if spec.get('nostd'):
         obligations += 1; discharged += (0 if cfg_dep else 1)
 
@@ -233,7 +254,7 @@ def main(argv):
                                     'n_failures': len(fresh), 'clauses': sorted({x['clause'] for x in fresh}), 'seed': seed,
                                     'broken_obligations': broken})
         violations.append('VIOLATION property=%s replay=%s' % (pid, rp))
-    elif broken or cdiff or untranslated or cfg_dep or not ps['ok']:
+    elif broken or cdiff or untranslated or cfg_dep or hand_changed or not ps['ok']:
         what = []
         if broken:
             what.append('bridge: ' + ', '.join('bridge.' + b for b in broken[:8]))
@@ -241,6 +262,8 @@ def main(argv):
             what.append('correspondence(first differing case=%s impl=%s model=%s)' % cdiff[0][1:])
         if untranslated:
             what.append('untranslatable: ' + ', '.join(u['name'] for u in untranslated[:5]))
+        if hand_changed:
+            what.append('hand-modelled source changed (the hand model in TFV/Hand is tied to the text it was written from): ' + ', '.join(hand_changed))
         if cfg_dep:
             what.append('cfg-dependent definitions: ' + ', '.join(cfg_dep[:5]))
         if not ps['ok']:
